@@ -60,6 +60,8 @@ def parse_model(s):
         return "FUEL"
     if not s.startswith("ok "):
         return "?" + s
+    if s in ("ok true", "ok false"):
+        return f"(bool {s[3:]})"
     if s == "ok none":
         return "(none)"
     if s.startswith("ok some "):
@@ -383,6 +385,38 @@ def consume(kind, arg, g):
             if i == arg:
                 return x, ctx
         return ERR, ctx
+    if kind in ("first", "any", "all", "count"):
+        _, _, pred = arg
+        n = 0
+        for x in it:
+            if kind == "all":
+                ctx.calls += 1          # the wrapper `(t) -> {!f(t)}`
+            r = pred(ctx, x)
+            if r is ERR:
+                return ERR, ctx
+            if kind == "count":
+                n += 1 if r else 0
+            elif kind == "all":
+                if not r:
+                    return False, ctx
+            elif r:
+                return (Some(x) if kind == "first" else True), ctx
+        return {"first": Some(None), "any": False, "all": True, "count": n}[kind], ctx
+    if kind in ("reduce", "reduce1"):
+        init, (_, _, f2) = arg
+        st, seen = init, init is not None
+        for x in it:
+            if x is ERR:
+                return ERR, ctx
+            if not seen:
+                st, seen = x, True
+                ctx.calls += 1
+                continue
+            ctx.calls += 1 if kind == "reduce" else 2
+            st = f2(ctx, st, x)
+            if st is ERR:
+                return ERR, ctx
+        return (st if seen else ERR), ctx
     if kind == "nth":
         k, (_, _, pred) = arg
         if k < 0:
@@ -483,6 +517,14 @@ def gen_pred(rng, ty, errmode):
     return f"(x:{ty})->{{{v} < {v}}}", "false", strict(lambda x: False)
 
 
+def gen_f2(rng):
+    """(xray lambda, model token, oracle) of a binary function on ints"""
+    if rng.random() < 0.6:
+        return "(a:int, b:int)->{a + b}", "add", strict(lambda a, b: a + b)
+    a = rng.choice([2, -1, 3])
+    return f"(a:int, b:int)->{{a * {lit(a)} + b}}", f"lin:{a}", strict(lambda s, x: s * a + x)
+
+
 def gen_source(rng, errmode):
     k = rng.random()
     if k < 0.4:
@@ -506,9 +548,9 @@ def gen_source(rng, errmode):
                 o_succ(i, strict(lambda x: x + b), until=c), ops=["successors_until"])
 
 
-INT_OPS = ["map", "filter", "take", "skip", "add", "repeat", "repeatn", "take_while", "skip_until", "aggregate",
+INT_OPS = ["map", "filter", "take", "skip", "add", "repeat", "repeatn", "take_while", "skip_until", "aggregate", "aggregate1",
            "with_count", "distinct", "group", "windows", "chunks", "zip", "enumerate"]
-ERR_OK = {"map", "filter", "take", "skip", "add", "repeat", "take_while", "skip_until", "aggregate", "zip", "enumerate"}
+ERR_OK = {"map", "filter", "take", "skip", "add", "repeat", "take_while", "skip_until", "aggregate", "aggregate1", "zip", "enumerate"}
 
 
 def extend(rng, p, errmode, depth):
@@ -551,6 +593,21 @@ def extend(rng, p, errmode, depth):
         a = rng.choice([2, -1, 3])
         return p.then("aggregate", f"{p.src}.aggregate({lit(init)}, (a:int, b:int)->{{a * {lit(a)} + b}})", f"aggregate:{init}:lin:{a}",
                       o_aggregate(p.orc, init, strict(lambda s, x: s * a + x)))
+    if op == "aggregate1":
+        x, tok, f = gen_f2(rng)
+
+        def o_agg1(g, f=f):
+            def it(ctx):
+                st, seen = None, False
+                for v in g(ctx):
+                    ctx.calls += 2
+                    if not seen:
+                        st, seen = v, True
+                    else:
+                        st = f(ctx, st, v)
+                    yield st
+            return counted(it)
+        return p.then("aggregate1", f"{p.src}.aggregate({x})", f"aggregate1:{tok}", o_agg1(p.orc))
     if op == "with_count":
         return p.then("with_count", f"{p.src}.with_count()", "withcount", o_with_count(p.orc), ty=TUP2)
     if op == "distinct":
@@ -644,11 +701,25 @@ def gen_case(rng, max_ops):
     elif k < 0.95 or p.ty == SEQ:
         arg = rng.choice([0, 1, 2, 3, 5, 9, -1])
         cons, call = "get", f"get({lit(arg)})"
-    else:
+    elif k < 0.975 or p.ty != INT:
         idx = rng.choice([0, 0, 1, 2, 4, -1])
         pr = gen_pred(rng, p.ty, getattr(p, "errmode", False))
         arg = (idx, pr)
         cons, call = "nth", f"nth({lit(idx)}, {pr[0]})"
+        if rng.random() < 0.5:
+            cons = rng.choice(["first", "any", "all", "count"])
+            arg = pr
+            call = f"{cons}({pr[0]})"
+    else:
+        f2 = gen_f2(rng)
+        kk = rng.random()
+        if kk < 0.35:
+            init = small(rng)
+            cons, arg, call = "reduce", (init, f2), f"reduce({lit(init)}, {f2[0]})"
+        elif kk < 0.7:
+            cons, arg, call = "reduce1", (None, f2), f"reduce({f2[0]})"
+        else:
+            cons, arg, call = "reduce", (0, ("", "add", strict(lambda a, b: a + b))), "sum()"
     return p, cons, arg, call
 
 
@@ -759,6 +830,12 @@ def cons_name(cons, arg):
         return cons
     if cons == "nth":
         return f"nth:{arg[0]}:{arg[1][1]}"
+    if cons in ("first", "any", "all", "count"):
+        return f"{cons}:{arg[1]}"
+    if cons == "reduce":
+        return f"reduce:{arg[0]}:{arg[1][1]}"
+    if cons == "reduce1":
+        return f"reduce1:{arg[1][1]}"
     return f"{cons}:{arg}"
 
 
